@@ -161,11 +161,34 @@ const BINOPS: [(&str, ast::BinOp); 30] = [
     ("Sequence", ast::BinOp::Sequence),
 ];
 
-const MODIFIERS: [(&str, ast::TypeModifier); 4] = [
+const MODIFIERS: [(&str, ast::TypeModifier); 27] = [
     ("const", ast::TypeModifier::Const),
     ("volatile", ast::TypeModifier::Volatile),
     ("row_major", ast::TypeModifier::RowMajor),
     ("column_major", ast::TypeModifier::ColumnMajor),
+    ("unorm", ast::TypeModifier::Unorm),
+    ("snorm", ast::TypeModifier::Snorm),
+    ("in", ast::TypeModifier::In),
+    ("out", ast::TypeModifier::Out),
+    ("inout", ast::TypeModifier::InOut),
+    ("extern", ast::TypeModifier::Extern),
+    ("static", ast::TypeModifier::Static),
+    ("groupshared", ast::TypeModifier::GroupShared),
+    ("precise", ast::TypeModifier::Precise),
+    ("nointerpolation", ast::TypeModifier::NoInterpolation),
+    ("linear", ast::TypeModifier::Linear),
+    ("centroid", ast::TypeModifier::Centroid),
+    ("noperspective", ast::TypeModifier::NoPerspective),
+    ("sample", ast::TypeModifier::Sample),
+    ("point", ast::TypeModifier::Point),
+    ("line", ast::TypeModifier::Line),
+    ("triangle", ast::TypeModifier::Triangle),
+    ("lineadj", ast::TypeModifier::LineAdj),
+    ("triangleadj", ast::TypeModifier::TriangleAdj),
+    ("vertices", ast::TypeModifier::Vertices),
+    ("primitives", ast::TypeModifier::Primitives),
+    ("indices", ast::TypeModifier::Indices),
+    ("payload", ast::TypeModifier::Payload),
 ];
 
 fn unop_name(op: &ast::UnaryOp) -> &'static str {
@@ -1997,6 +2020,97 @@ impl Gen {
         t
     }
 
+    /// a type id with template arguments, modifiers and an abstract declarator (stream `random-types`)
+    fn rich_type(&mut self, d: usize) -> SExp {
+        let n = *self.rng.pick(&["float", "uint", "T", "S", "N::S", "vector"]);
+        let mut t = if d > 0 && self.rng.chance(1, 2) {
+            let mut v = vec![SExp::list("n", n.split("::").map(SExp::atom).collect())];
+            for _ in 0..1 + self.rng.below(2) {
+                v.push(self.rich_eot(d - 1));
+            }
+            SExp::list("tyt", v)
+        } else {
+            SExp::list("ty", n.split("::").map(SExp::atom).collect())
+        };
+        for _ in 0..self.rng.below(3) {
+            if self.rng.chance(1, 3) {
+                let m = MODIFIERS[self.rng.below(MODIFIERS.len() as u64) as usize].0;
+                t = SExp::list(m, vec![t]);
+            }
+        }
+        match self.rng.below(12) {
+            0 => t = SExp::list("ptr", vec![t]),
+            1 => t = SExp::list("ref", vec![t]),
+            2 => t = SExp::list("arr", vec![t, self.leaf()]),
+            3 => t = SExp::list("arr", vec![t]),
+            4 => t = SExp::list("ptr", vec![SExp::list("ptr", vec![t])]),
+            5 => t = SExp::list("arr", vec![SExp::list("arr", vec![t, self.leaf()]), self.leaf()]),
+            // not generated: a reference to a reference (prints `&&`, one token) and pointer / array mixes in an
+            // abstract declarator (`T*[n]` reads `[n]` as an attribute, `T (*)[n]` has no production): neither the
+            // parser nor an exporter builds them
+            6 if self.rng.chance(1, 2) => t = SExp::list("ref", vec![SExp::list("ptr", vec![t])]),
+            6 => t = SExp::list("ptr", vec![SExp::list("ref", vec![t])]),
+            _ => {}
+        }
+        t
+    }
+
+    fn rich_eot(&mut self, d: usize) -> SExp {
+        match self.rng.below(4) {
+            0 => SExp::list("T", vec![self.rich_type(d)]),
+            1 => {
+                let n = *self.rng.pick(&["T", "U", "float"]);
+                SExp::list("B", vec![SExp::list("id", vec![SExp::atom(n)]), SExp::list("ty", vec![SExp::atom(n)])])
+            }
+            2 => SExp::list("E", vec![self.literal(false)]),
+            _ => SExp::list("E", vec![self.expr(d.min(2), false)]),
+        }
+    }
+
+    /// expression trees around casts / sizeof / template calls with rich types
+    fn typed_expr(&mut self, d: usize) -> SExp {
+        if d <= 1 {
+            return self.leaf();
+        }
+        match self.rng.below(10) {
+            0 | 1 | 2 => {
+                let t = self.rich_type(d - 1);
+                SExp::list("cast", vec![t, self.typed_expr(d - 1)])
+            }
+            3 => SExp::list("sizeof", vec![self.rich_eot(d - 1)]),
+            4 | 5 => {
+                let f = SExp::list("id", vec![SExp::atom(*self.rng.pick(&["f", "g", "T"]))]);
+                let mut targs = Vec::new();
+                for _ in 0..1 + self.rng.below(2) {
+                    targs.push(self.rich_eot(d - 1));
+                }
+                let mut args = Vec::new();
+                for _ in 0..self.rng.below(3) {
+                    args.push(self.typed_expr(d - 1));
+                }
+                SExp::list("call", vec![f, SExp::List(targs), SExp::List(args)])
+            }
+            6 => {
+                let op = UNOPS[self.rng.below(10) as usize].0;
+                un(op, self.typed_expr(d - 1))
+            }
+            7 | 8 => {
+                let op = BINOPS[self.rng.below(30) as usize].0;
+                let l = self.typed_expr(d - 1);
+                let r = self.typed_expr(d - 1);
+                bin(op, l, r)
+            }
+            _ => {
+                let o = self.typed_expr(d - 1);
+                match self.rng.below(3) {
+                    0 => SExp::list("mem", vec![o, SExp::atom("m")]),
+                    1 => SExp::list("sub", vec![o, self.typed_expr(d - 1)]),
+                    _ => SExp::list("call", vec![o, SExp::List(vec![]), SExp::List(vec![self.typed_expr(d - 1)])]),
+                }
+            }
+        }
+    }
+
     fn eot(&mut self, d: usize) -> SExp {
         match self.rng.below(3) {
             0 => SExp::list("T", vec![self.type_id()]),
@@ -2123,6 +2237,16 @@ pub fn run(args: &Args, out: &mut Out) {
         run_request(&line, out, &mut st);
     }
     out.stat(&st.json("random-exotic"));
+    // stream 3b: casts, sizeof and template calls over types with template arguments, modifiers and declarators
+    let mut st = Stats::default();
+    for i in 0..n / 2 {
+        let d = 2 + (i % 4) as usize;
+        let t = g.typed_expr(d);
+        let ctx = *g.rng.pick(&["ret", "ret", "arg", "idx", "init", "stmt"]);
+        let line = format!("C09.rt\t{}\t{}", ctx, t.show());
+        run_request(&line, out, &mut st);
+    }
+    out.stat(&st.json("random-types"));
     // stream 4: parser-produced trees of whole modules: statements, declarators, types, initialisers, attributes
     let mut sg = SrcGen {
         rng: g.rng.fork(),
